@@ -110,6 +110,11 @@ class LazySeq:
         self.finished = False
 
     def __getitem__(self, i):
+        if isinstance(i, slice):
+            # slices the standard way: the bounds are normalised with the length -- which a lazy sequence only knows after
+            # producing everything (so asking for a slice of an unfinished sequence is as expensive as len())
+            start, stop, step = i.indices(len(self))
+            return [self[j] for j in range(start, stop, step)]
         if i < 0:
             i += self.L
         if not 0 <= i < self.L:
